@@ -1,16 +1,16 @@
 CONSTANTS
-  MaxObj = 4
-  MaxSteps = 8
+  MaxObj = 3
+  MaxSteps = 7
   CreateClasses = {"P","C"}
-  QueryClasses = {"P"}
+  QueryClasses = {"P","C"}
   AllowClear = FALSE
   AllowRelate = TRUE
-  AllowQueryX = FALSE
-  AllowSweep = TRUE
+  AllowQueryX = TRUE
+  AllowSweep = FALSE
   Hist = TRUE
   PopIdOfNone = FALSE
   StaleRelationIndex = FALSE
   DupSubclassList = FALSE
-  StrongExprTable = FALSE
+  StrongExprTable = TRUE
 SPECIFICATION Spec
 CONSTRAINT Emit
